@@ -613,6 +613,15 @@ def gssvx_case(rng, prec, quick, kind='mixed', nmax=None):
         c['pmode'] = rng.choice([1, 2]); c['pert'] = rng.randrange(1, 1 << 30)
     if c.get('exact'):
         c['ord'] = 0; c['u'] = 1.0; c['n'] = max(c['n'], 5)
+    elif kind != 'svd' and rng.random() < 0.12:
+        # element growth: the unrefined solve is far from backward stable, refinement has to do the work; several right-hand
+        # sides of very different size (zero / tiny columns next to ordinary ones)
+        c['fam'] = 'wilk'; c['n'] = rng.choice([8, 12, 16, 20, 24] if prec in 'dz' else [6, 8, 10, 12]); c['wtheta'] = rng.choice([1.0, 0.9, 0.7])
+        for k2 in ('cond', 'svmode', 'dens', 'bs', 'ncpl', 'rscale', 'cscale', 'dom', 'unitri', 'rhs'): c.pop(k2, None)
+        c['vals'] = 'generic'; c['ord'] = 0; c['u'] = rng.choice([1.0, 0.5, 0.1]); c['nrhs'] = rng.choice([2, 3, 4])
+        c['colpat'] = rng.choice(['zg', 'gz', 'tg', 'gtg', 'zgzg', 'g', 'gg'])
+    if rng.random() < 0.1 and c.get('nrhs', 0) >= 2 and 'colpat' not in c:
+        c['colpat'] = rng.choice(['zg', 'gz', 'tg', 'gzg'])
     return c
 
 X_COUNTERS = ('tight_judged', 'nrhs', 'premised', 'rcond_judged', 'pipe_takes', 'thr_panels')
@@ -938,6 +947,10 @@ def gen_c15(ctx):
         for rt, nv in ARG_TABLE.items():
             for v in range(nv):
                 out.append(({'variant': 'asan' if (v % 2 == 0) else 'plain', 'prec': prec}, {'cmd': 'args', 'rt': rt, 'v1': v, 'n': 4 + v % 3, 'seed': 7 + v}))
+            if rt in ('gssv', 'gssvx', 'gstrs', 'gsrfs'):
+                # every single violation once more on a call without right-hand sides (legal by itself)
+                for v in range(nv):
+                    out.append(({'variant': 'plain', 'prec': prec}, {'cmd': 'args', 'rt': rt, 'v1': v, 'n': 4 + v % 3, 'seed': 9 + v, 'nrhs0': 1}))
             pairs = [(a, b) for a in range(nv) for b in range(a + 1, nv) if not (rt == 'gssvx' and ((a == 1 and b in EQV) or (a in EQV and b in EQV)))]
             for a, b in pairs:
                 out.append(({'variant': 'plain' if (a + b) % 3 else 'asan', 'prec': prec}, {'cmd': 'args', 'rt': rt, 'v1': a, 'v2': b, 'n': 5, 'seed': 11 + a * 31 + b}))
@@ -1046,6 +1059,18 @@ def gen_c14(ctx):
         c['ops'] = rng.choice(['F,S0', 'F,S0', 'F,S0,R1,S1'])
         c['nps'] = str(rng.choice([2, 3, 4, 4, 8])); c['pmode'] = rng.choice([7, 7, 1, 0]); c['pert'] = rng.randrange(1, 1 << 30)
         out.append(({'variant': 'plain', 'prec': prec, 'class': 'wsmt'}, c))
+    # refactorization in the SAME tight buffer with more threads than the first factorization (buffer = the 1-thread query size,
+    # arrays nearly full): the tail allocations of the second call must respect what the factors occupy at the head
+    NT = 400 if ctx.quick else 6000
+    for i in range(NT):
+        prec = rng.choice(PRECS)
+        c = hist_base(rng, ctx.quick, nmax=60)
+        c['n'] = max(c['n'], 12)
+        c['mem'] = 1; c['lwfrac'] = rng.choice([1.0, 1.0, 1.05, 1.2]); c['lwodd'] = rng.choice([0, 4])
+        c['fill7frac'] = rng.choice([1.5, 2.0, 3.0, 6.0]); c['fill8frac'] = rng.choice([2.0, 3.0, 6.0])
+        c['ops'] = rng.choice(['F,S0,R1,S1', 'F,R0,S0', 'F,R1,R0,S2']); c['nps'] = rng.choice(['1,1,4,1', '1,8,8,1', '2,2,8,8', '1,2,4,8'])
+        c['pmode'] = rng.choice([0, 1, 7]); c['pert'] = rng.randrange(1, 1 << 30); c['oomok'] = 1      # a clean info > n is a legitimate answer here
+        out.append(({'variant': 'plain', 'prec': prec, 'per_process': True, 'class': 'capacity', 'dump': False}, c))
     # capacity of U / of the L subscripts near the real need, in both memory modes: the run either fits (factors checked,
     # arrays disjoint inside the buffer) or stops through the "Storage for ... exceeded" diagnostic; one case per process
     NF = 500 if ctx.quick else 8000
@@ -1146,11 +1171,13 @@ def gen_c17(ctx):
     rng = ctx.rng
     out = []
     N = 900 if ctx.quick else 8000
-    seqs = ['F,S0,D', 'F,R1,S1,R0,S0,D', 'V', 'E', 'V1', 'E1', 'X', 'V,E,V1,E1,X,F,S0,D', 'F,D,F,R0,D', 'E2', 'Q,E2,F,S0,D', 'E3', 'E4', 'E3,E4,E', 'E3,V,E1']
+    seqs = ['F,S0,D', 'F,R1,S1,R0,S0,D', 'V', 'E', 'V1', 'E1', 'X', 'V,E,V1,E1,X,F,S0,D', 'F,D,F,R0,D', 'E2', 'Q,E2,F,S0,D', 'E3', 'E4', 'E3,E4,E', 'E3,V,E1', 'E5', 'E5,E', 'V,E5']
     for i in range(N):
         prec = rng.choice(PRECS)
         c = hist_base(rng, ctx.quick, nmax=30)
         c['ops'] = rng.choice(seqs)
+        if rng.random() < 0.12: c['fam'] = 'diag'; c['dom'] = ''        # no off-diagonal entry at all: empty adjacency structures in the orderings
+        elif rng.random() < 0.1: c['fam'] = 'blockdiag'; c['bs'] = 1; c['dom'] = 'row'
         # one thread count per case: the C runtime keeps per-thread structures of finished threads for reuse, so a
         # repetition that is the first to use more threads than any before it grows the heap once (not a library leak)
         c['nps'] = str(rng.choice([1, 2, 3, 4]))
@@ -1222,6 +1249,22 @@ def gen_c18(ctx):
                 if pre: c['pre'] = pre
                 k += 1
                 out.append(({'variant': 'asan' if (k % 4 == 0) else 'plain', 'prec': prec, 'per_process': True}, c))
+    # memory-subsystem state: the probe factors and refactors in a caller workspace of exactly the query size after histories of
+    # user-workspace calls that failed at different points (buffer sizes swept through the range where the initial allocation
+    # succeeds and a worker's work arrays do not fit), that were interrupted by singular inputs, or that used other thread counts
+    NM = 150 if ctx.quick else 1500
+    for i in range(NM):
+        c = hist_base(rng, ctx.quick, nmax=44)
+        c['n'] = max(c['n'], 12)
+        c['mem'] = 1; c['lwfrac'] = 1.0; c['fill7frac'] = rng.choice([2.0, 3.0, 6.0]); c['fill8frac'] = rng.choice([2.0, 3.0, 6.0])
+        c['ops'] = rng.choice(['F,R0,S0', 'F,R1,S1', 'F,S0,R0,R1']); c['nps'] = rng.choice(['1', '2', '2', '4']); c['oomok'] = 1
+        prec = rng.choice(PRECS)
+        fr = [0.55 + 0.03 * k for k in range(16)]; rng.shuffle(fr)
+        pre = '|'.join('fam:%s;n:%d;ops:F;mem:1;lwfrac:%.2f;nps:%s;oomok:1;fill7frac:3.0;fill8frac:3.0' % (rng.choice(['grid', 'band']), rng.choice([16, 24, 36]), f, rng.choice(['1', '2', '4'])) for f in fr[:rng.choice([3, 6, 10])])
+        a = dict(c); a['probe'] = 5000 + i
+        b = dict(c); b['probe'] = 5000 + i; b['pre'] = pre
+        out.append(({'variant': 'plain', 'prec': prec, 'per_process': True}, a))
+        out.append(({'variant': 'plain', 'prec': prec, 'per_process': True}, b))
     # long histories: ~150 assorted complete driver calls (orders 5..44) before the probe; state that is only exhausted or
     # overwritten after many calls shows here.  Probes are complete expert-driver calls (every output incl. rcond, ferr, berr
     # is in the digest), many of them because only some inputs are sensitive to a given piece of carried-over state.
@@ -1241,17 +1284,22 @@ def gen_c18(ctx):
         out.append(({'variant': 'plain', 'prec': prec, 'per_process': True}, b))
     return out
 
+def _c18_sig(r):
+    # one thread: every output bit; several threads: the supernode partition depends on the schedule, so only what every
+    # schedule must agree on is compared (which calls succeeded, with which info) - the values are judged by the C08 oracles
+    return r['result'].get('digest') if str(r['case'].get('nps', '1')) == '1' else r['result'].get('infos')
+
 def post_c18(ctx, recs, out):
     base = {}
     for r in recs.values():
         if 'pre' not in r['case'] and r.get('result'):
-            base[(r['meta']['prec'], r['case']['probe'])] = r['result'].get('digest')
+            base[(r['meta']['prec'], r['case']['probe'])] = _c18_sig(r)
     for r in recs.values():
         if 'pre' in r['case'] and r.get('result'):
             b = base.get((r['meta']['prec'], r['case']['probe']))
-            if b is not None and r['result'].get('digest') != b:
+            if b is not None and _c18_sig(r) != b:
                 fam = r['case']['pre'].split(';')[0]
-                out.append(('C18|result-depends-on-history', r, 'probe %s after prefix "%s" gave %s, in a fresh process %s' % (r['case']['ops'], r['case']['pre'], r['result'].get('digest'), b)))
+                out.append(('C18|result-depends-on-history', r, 'probe %s after prefix "%s" gave %s, in a fresh process %s' % (r['case']['ops'], r['case']['pre'], _c18_sig(r), b)))
 
 def cov_c18(ctx, recs):
     pre = set(); cmp_ = 0
@@ -1281,6 +1329,13 @@ def gen_c16(ctx):
         c['vals'] = rng.choice(['generic', 'int', 'hostile']); c['dom'] = rng.choice(['row', 'col'])
         c.pop('rscale', None); c.pop('cscale', None)
         if rng.random() < 0.4: c['symmpat'] = 1
+        if rng.random() < 0.25:
+            # exact magnitude ties between the diagonal and off-diagonal candidates (grounded unit-weight Laplacians)
+            c['lapl'] = rng.choice([1, 2]); c.pop('dom', None); c['vals'] = 'ones'; c['symmpat'] = 1 if rng.random() < 0.7 else 0
+            if c['fam'] in ('rand', 'dense'): c['fam'] = rng.choice(['grid', 'tree', 'chain', 'star', 'band']); c.pop('dens', None)
+            if c['fam'] == 'tree': c['shape'] = rng.choice([0, 1, 2, 3]); c['kary'] = 3; c['xanc'] = 0
+            if c['fam'] == 'band': c['bl'] = 1; c['bu'] = 1
+            if c['fam'] == 'star': c['bs'] = rng.choice([1, 2]); c['ncpl'] = 1
         v = 'plain'
         env = {}
         r = rng.random()
